@@ -1,12 +1,18 @@
 import Zog.Props.FactsOK
 import Zog.Laws
+import Zog.Alias
 
 /-!
 # C19 — executions never modify the schema or the input
-In the model schema and input are arguments that are never returned changed: "never modified"
-is by construction, so the content of this property is in the tie (go/ast fact: no write to a
-schema receiver or package variable inside process/validate/Parse/Validate; S-alias: deep
-snapshots and second-run equality on the real code).  What the model adds: the frame lemmas.
+In the value model (Engine / Spec) schema and input are arguments that are never returned changed:
+"never modified" is by construction there, so the content of this property is (a) in the tie
+(go/ast fact: no write to a schema receiver or package variable inside
+process/validate/Parse/Validate; S-alias / S-front / engine `retype`, `nested`: deep snapshots and
+second-run equality on the real code, one schema object across destination types and front ends),
+and (b) in the ALIASING model `Zog/Alias.lean`: Go values with reference identity, in-place writes,
+deep vs one-level copies. The theorems below say that the deep copy `SliceSchema.validate` makes of
+its Default (fact `Gen.sliceDefaultDeep`, a behavioural probe of the working tree) puts the default
+out of reach of every in-place write through the destination.
 -/
 
 namespace Zog.Props.C19
@@ -26,10 +32,33 @@ theorem validate_prim_frame (env : Env) (p : Prim) (path : List String) (d : DVa
   · cases p.required <;> rfl
   · rfl
 
-/-- a second execution on the same arguments is the first execution (the model has no hidden state;
-    the pools are the business of C07) -/
-theorem second_run_same (env : Env) (m : Mode) (s : Schema) (tag : Option String) (v : Val) (d : DVal) :
-    Engine.run env Gen.facts m s tag v d = Engine.run env Gen.facts m s tag v d := rfl
+/-- the working tree's `SliceSchema.validate` gives the validated value a deep copy of a nested
+    Default (probe: nested default, in-place write through the validated value, second use) -/
+theorem default_copy_is_deep : Gen.sliceDefaultDeep = true := by decide
+
+/-- **The schema's default is out of reach of the destination.** The validated value is a deep copy
+    (`Alias.deepCopy`) allocated above every address the default mentions: it has the default's
+    value, all its arrays are fresh, and NO sequence of in-place writes to arrays of the copy — or to
+    anything allocated later — changes what the default reads, at any depth. -/
+theorem default_out_of_reach (dflt : Alias.HV) (next : Nat) (hd : ∀ a ∈ Alias.addrs dflt, a < next)
+    (ws : List (Nat × Nat × Alias.HV)) (hw : ∀ w ∈ ws, next ≤ w.1) :
+    Alias.writes ws dflt = dflt ∧
+    (∀ b ∈ Alias.addrs (Alias.deepCopy next dflt).1, next ≤ b) ∧
+    Alias.sameShape (Alias.deepCopy next dflt).1 dflt = true :=
+  ⟨Alias.default_out_of_reach dflt next hd ws hw, (Alias.copy_is_fresh_and_equal dflt next).1, (Alias.copy_is_fresh_and_equal dflt next).2⟩
+
+/-- a write only reaches values that mention its address (frame) -/
+theorem write_frame (addr i : Nat) (x v : Alias.HV) (h : addr ∉ Alias.addrs v) : Alias.write addr i x v = v :=
+  Alias.write_frame addr i x v h
+
+/-- the one-level copy the code made before the D29 repair DOES share: the witness `[[1, 2]]`,
+    `value[0][0] = 9` changes the default (and the deep copy does not) -/
+theorem shallow_copy_shares_witness :
+    (let dflt := Alias.HV.arr 0 [Alias.HV.arr 1 [.leaf 1, .leaf 2]]
+     1 ∈ Alias.addrs (Alias.shallowCopy 2 dflt).1 ∧ Alias.leafAt (Alias.write 1 0 (.leaf 9) dflt) [0, 0] = some 9) ∧
+    (let dflt := Alias.HV.arr 0 [Alias.HV.arr 1 [.leaf 1, .leaf 2]]
+     Alias.addrs (Alias.deepCopy 2 dflt).1 = [2, 3] ∧ Alias.leafAt (Alias.write 3 0 (.leaf 9) dflt) [0, 0] = some 1) := by
+  decide
 
 /-- the default of a slice enters Validate as a *value*: the destination receives a copy
     (`dfltD`), so later writes through the destination cannot reach the schema -/
